@@ -22,7 +22,10 @@ Context (cfg : @config F) (K : @kernels F A) (lip : list F).
 Let p := n_features cfg.                      (* = number of groups in the mock world (singleton groups) *)
 Notation wp := (wp cfg).
 Definition all_groups : list Z := zrange 0 (Z.of_nat p).
-Definition three_tenths : F := fofQ (5404319552844595 # 18014398509481984)%Q.     (* the binary64 value of 0.3 *)
+(* the literal 0.3: it only occurs in non-strict tests  score <= 0.3 * stop_crit.  Exact arithmetic takes the decision binary64
+   takes, also at an exact tie (score = 3/10 * stop_crit with dyadic operands: the double product rounds to the score itself and
+   the test succeeds), when 0.3 is read as a rational just above 3/10 *)
+Definition three_tenths : F := fofQ ((3 # 10) + (1 # 1152921504606846976))%Q.
 
 Definition bobjective (s : bstate) : res (Ext F) :=
   bind (k_df_value K (b_w s) (b_Xw s)) (fun d => bind (k_pen_value K (wp (b_w s))) (fun pv => Ok (eadd (Fin d) pv))).
